@@ -179,3 +179,43 @@ func VerifToPathSequence() {
 	// the first result is not disturbed by the second conversion either
 	verifrt.Assert(vc11Same(p1, q1), "first-result-unchanged-by-second-conversion")
 }
+
+// VerifToPathConcurrentColdIndex (C11, explored interleavings): two goroutines convert index
+// sequences that share schema nodes on ONE bound schema client whose index is still empty (the
+// first requests after a start): each gets the path a single-threaded client computes - a
+// lookup that finds another goroutine's index entry under construction waits for it instead
+// of taking it for "no keys here".
+func VerifToPathConcurrentColdIndex() {
+	s1 := verifrt.Choice("shape1", 6)
+	s2 := verifrt.Choice("shape2", 6)
+	vc11EqualMKeys = true
+	p1 := vc11Path(s1)
+	p2 := vc11Path(s2)
+	ts1 := utils.ToStrings(p1, false, false)
+	ts2 := utils.ToStrings(p2, false, false)
+	scb := NewSchemaClientBound(&sdcpb.Schema{Name: "verif", Vendor: "v", Version: "1"}, &vc11SchemaStub{})
+	var q1, q2 *sdcpb.Path
+	var e1, e2 error
+	done1, done2 := false, false
+	go func() {
+		q1, e1 = scb.ToPath(context.Background(), ts1)
+		done1 = true
+	}()
+	go func() {
+		q2, e2 = scb.ToPath(context.Background(), ts2)
+		done2 = true
+	}()
+	verifrt.AwaitQuiescence()
+	verifrt.Reach("both-converted")
+	verifrt.Assert(done1 && done2, "concurrent-ToPath-returns")
+	if !done1 || !done2 {
+		return
+	}
+	verifrt.Assert(e1 == nil && e2 == nil, "concurrent-ToPath-accepts-index-sequence")
+	if e1 == nil {
+		verifrt.Assert(vc11Same(p1, q1), "concurrent-ToPath-is-identity")
+	}
+	if e2 == nil {
+		verifrt.Assert(vc11Same(p2, q2), "concurrent-ToPath-is-identity")
+	}
+}
